@@ -30,7 +30,9 @@ def _canon(nnx, root):
       items = sorted((k, v) for k, v in vars(x).items() if not k.startswith('_object__'))
       return ('module', me, type(x).__name__, tuple((k, visit(v)) for k, v in items))
     if isinstance(x, dict):
-      return ('dict', tuple((k, visit(x[k])) for k in sorted(x)))
+      return (type(x).__name__, tuple((k, visit(x[k])) for k in sorted(x)))
+    if isinstance(x, tuple) and hasattr(x, '_fields'):
+      return (type(x).__name__, tuple((f, visit(getattr(x, f))) for f in x._fields))     # by FIELD, in declaration order
     if isinstance(x, (list, tuple)):
       return (type(x).__name__, tuple(visit(v) for v in x))
     return ('static', repr(x))
@@ -109,7 +111,17 @@ def _graphs(nnx):
     m.pair = Pair(a, b)         # a tuple subclass holding sub-modules
     m.also = b                  # ... one of them reachable another way too
     return m
-  return dict(hooked_var=g_hooked_var, namedtuple=g_namedtuple, tree=g_tree, shared_var=g_shared_var, shared_module=g_shared_module, cycle=g_cycle, dict_order=g_dict_order, var_cycle_shared=g_var_cycle_shared)
+  Step = collections.namedtuple('Step', ['zeta', 'alpha', 'mid'])      # field order is not alphabetical
+
+  def g_unsorted_pytree():
+    m = M()
+    a, b = M(), M()
+    a.w = nnx.Param(jnp.array(1.0))
+    b.v = nnx.BatchStat(jnp.array(2.0))
+    m.step = Step(zeta=a, alpha=nnx.Param(jnp.array(7.0)), mid=b)
+    m.od = collections.OrderedDict([('z', nnx.Param(jnp.array(3.0))), ('a', b), ('m', 5)])
+    return m
+  return dict(hooked_var=g_hooked_var, namedtuple=g_namedtuple, unsorted_pytree=g_unsorted_pytree, tree=g_tree, shared_var=g_shared_var, shared_module=g_shared_module, cycle=g_cycle, dict_order=g_dict_order, var_cycle_shared=g_var_cycle_shared)
 
 
 def _first_paths(nnx, root):
@@ -229,7 +241,7 @@ def run(tier, seed):
         msg = f'raised {e!r} ' + traceback.format_exc()[-300:]
       if msg:
         fails.append(dict(inputs=dict(graph=name, check=what), observed=msg[:500], violated=what))
-  return dict(name=NAME, cases=cases, distinct=cases, bound='8 object graphs (tree, shared Variable, shared Module, cycles, non-alphabetical dict, Variable shared across a cycle, Variable with a get-value hook, named tuple of sub-modules) x split/merge/state/clone/update/pop',
+  return dict(name=NAME, cases=cases, distinct=cases, bound='9 object graphs (tree, shared Variable, shared Module, cycles, non-alphabetical dict, Variable shared across a cycle, Variable with a get-value hook, named tuple of sub-modules, named tuple / OrderedDict with non-alphabetical keys) x split/merge/state/clone/update/pop',
               failures=fails, error=None)
 
 
